@@ -48,6 +48,9 @@ def clause_props(cinfo, clause):
     for q, pl in planmod.PLAN.items():
         if out & set(pl.get("chain_props", [])):
             out.add(q)
+    for q, lst in planmod.EXTRA_CLAUSES.items():
+        if (cinfo["name"], clause) in lst:
+            out.add(q)
     return out
 
 
@@ -134,7 +137,8 @@ def main(a):
     for name, c in C.items():
         if c.get("canary"):
             continue
-        if prop in c["props"] or prop in c.get("chain", []) or (set(c["props"]) & set(pl.get("chain_props", []))):
+        extra_contracts = {cn for cn, _ in planmod.EXTRA_CLAUSES.get(prop, [])}
+        if prop in c["props"] or prop in c.get("chain", []) or (set(c["props"]) & set(pl.get("chain_props", []))) or name in extra_contracts:
             if c.get("tier", "quick") == "thorough" and a.tier != "thorough":
                 continue
             sel.append(name)
